@@ -349,10 +349,33 @@ def _t2(ctx: Context) -> None:
     lenbuf = ("call", ("glob", "len"), (buf,), ())
     # guard
     gt = [n for n in cfg.nodes if n.kind == "test" and any(n.exprs[0] is x for x in ast.walk(loop.test))]
+    # a conjunct that is a flag whose value at the loop test is known (`while not done and ..` with `done = True; break`) decides nothing
+    gt = [n for n in gt if strip_sites(T.of(cfg, n, n.exprs[0]))[0] != "const" or len(gt) == 1]
+    if isinstance(loop.test, ast.Constant) and loop.test.value is True:
+        # `while True:` with the tests inside (the frame is taken by a helper that says "no complete frame" and the loop
+        # breaks on that answer): the guard is the test of len(buffer) against a constant, wherever it stands - what it has
+        # to do is the same: its "enough" outcome is the only way to the reads of the buffer, its other outcome ends the call
+        gt = [n for n in cfg.nodes if n.kind == "test" and (lambda t: t[0] == "cmp" and len(t[2]) == 2 and lenbuf in t[2] and any(x[0] == "const" for x in t[2]))(strip_sites(T.of(cfg, n, n.exprs[0])))]
+        for n in gt:
+            t = strip_sites(T.of(cfg, n, n.exprs[0]))
+            enough = {"GtE": "T", "Gt": "T", "Lt": "F", "LtE": "F"}.get(t[1][0]) if t[2][0] == lenbuf else {"GtE": "F", "Gt": "F", "Lt": "T", "LtE": "T"}.get(t[1][0])
+            if enough is None or t[2][0] != lenbuf:
+                ck.unknown("C05.T2", f"data_received: length test `{n.text()}` in a form not read", ctx.loc(f, n))
+                return
+            reads = [m for m in cfg.nodes if m.id != n.id and m.kind in ("stmt", "test") and m.ast is not None and any(
+                isinstance(x, (ast.Subscript, ast.Delete)) for x in ast.walk(m.ast if m.kind == "stmt" else m.exprs[0])) and any(
+                isinstance(x, ast.Subscript) and strip_sites(T.of(cfg, m, x.value)) == buf for x in ast.walk(m.ast if m.kind == "stmt" else m.exprs[0]))]
+            for m in reads:
+                ctx.must_pass("C05.T2", cfg, m, "len(buffer) covers the length prefix", cfg.out_edges(n, (enough,)), start=loops[0].id, desc=f"`{m.text()[:60]}` reads the buffer only after the length-prefix test of the same round")
+            for e in cfg.out_edges(n, ("F" if enough == "T" else "T",)):
+                reach = cfg.reachable_from(e[1]) | {e[1]}
+                ck.check("C05.T2", loops[0].id not in reach and cfg.exit.id in reach and not any(m.id in reach for m in reads), "a buffer shorter than a length prefix ends the call, nothing read or consumed",
+                         f"{ctx.fkey(f)}:short-buffer-continues", "data_received goes on (another round, or a read of the buffer) after finding the buffer shorter than a length prefix", ctx.loc(f, n))
     okg = False
     for n in gt:
         t = strip_sites(T.of(cfg, n, n.exprs[0]))
-        okg = t == ("cmp", ("GtE",), (lenbuf, ("const", FRAME_LENGTH_BYTES))) or t == ("cmp", ("Gt",), (lenbuf, ("const", FRAME_LENGTH_BYTES - 1)))
+        okg = t in (("cmp", ("GtE",), (lenbuf, ("const", FRAME_LENGTH_BYTES))), ("cmp", ("Gt",), (lenbuf, ("const", FRAME_LENGTH_BYTES - 1))),
+                    ("cmp", ("Lt",), (lenbuf, ("const", FRAME_LENGTH_BYTES))), ("cmp", ("LtE",), (lenbuf, ("const", FRAME_LENGTH_BYTES - 1))))
     gts = [strip_sites(T.of(cfg, n, n.exprs[0])) for n in gt]
     if not any(t[0] == "cmp" and lenbuf in t[2] for t in gts):
         # the loop is not driven by a test on the buffer length (frames taken by a helper, an index cursor ...): this
@@ -405,7 +428,12 @@ def _t2(ctx: Context) -> None:
              "data_received consumes buffer bytes before/when it finds the frame incomplete (the rest of the frame will be misparsed on the next read)", ctx.loc(f, n))
     # ciphertext taken buf[2:E], deletion buf[:E] with the same E
     # (the statement that slices the buffer itself - copies of the taken value into temporaries / helper parameters do not count)
-    taken = [m for m in cfg.nodes if m.kind == "stmt" and isinstance(m.ast, ast.Assign) and isinstance(m.ast.value, ast.Subscript)
+    def _sliced(v):  # bytes(buffer[a:b]) slices the buffer just as buffer[a:b] does
+        while isinstance(v, ast.Call) and isinstance(v.func, ast.Name) and v.func.id in ("bytes", "bytearray") and len(v.args) == 1 and not v.keywords:
+            v = v.args[0]
+        return v
+
+    taken = [m for m in cfg.nodes if m.kind == "stmt" and isinstance(m.ast, ast.Assign) and isinstance(_sliced(m.ast.value), ast.Subscript)
              and strip_sites(T.of(cfg, m, m.ast.value)) == ("sub", buf, ("slice", ("const", FRAME_LENGTH_BYTES), E, None))]
     dels = []
     for m in cfg.nodes:
